@@ -421,6 +421,18 @@ class G:
         extends the repeated piece"""
         r = self.r
         base = [('s', b'/'), ('s', r.choice(vocab))] if r.random() < 0.8 else []
+        if r.random() < 0.25:
+            # the repeated route ENDS IN A PARAMETER (a nested all-optional group repeats the 'everything omitted' expansion),
+            # and its only sibling is a parameter of the same kind with another name
+            kind = r.choice(['d', 'd', 'w'])
+            c = r.choice([None, None, b'lower', b'u8'])
+            n1, n2 = r.sample([b'a', b'b', b'id', b'name'], 2)
+            tail = [('g', [('g', [('s', b'/'), ('s', r.choice([b'y', b'b', b'edit']))])])]
+            if r.random() < 0.3:
+                tail = tail + [('g', [('g', [('s', b'/'), ('s', b'z')])])]
+            t = base + [('s', b'/'), (kind, n1, c)] + tail
+            ext = base + [('s', b'/'), (kind, n2, c)]
+            return t, ext
         piece = r.choice([[('s', b'/'), ('s', r.choice([b'b', b'a', b'm']))],
                           [('s', b'/')],
                           [('s', b'/'), ('s', r.choice(vocab))]])
